@@ -17,6 +17,8 @@ def check(ctx):
     repo = ctx.repo
     P = repo.cls(POLY, "Polygon")
     D = repo.cls(DEV, "Device")
+    ctx.rule("R18.9", "coordinate arrays stored on devices and polygons are rebound to new arrays by the transformations, never written element by element "
+                      "(an elementwise store casts to the dtype the user happened to supply)", 1)
     ctx.rule("R18.8", "memoised geometry (cached properties, lazy attributes) is invalidated by every method that rebinds what it was computed from", 2)
     ctx.rule("R18.7", "set operations and copies return a new object, never the receiver (also for zero operands)", 5)
     ctx.rule("R18.6", "the mesh shared between a device and its copies is never modified in place", 1)
@@ -212,6 +214,9 @@ def check(ctx):
     from ..effects import memo_discipline
     memo_discipline(ctx, "R18.8", "after an in-place transformation (translate / rotate / scale with inplace=True, or assigning points) the polygon "
                                   "keeps answering membership and boundary queries with its old outline")
+    from ..effects import coords_rebound_only
+    coords_rebound_only(ctx, "R18.9", "probe points given as integers are truncated by scale() (or any transformation with a non-integral image): "
+                                      "the points no longer map consistently with the shapes, and can leave the film")
     ctx.decline("areas under affine maps, agreement of set operations with point-wise membership, boundary conventions: computed by shapely / matplotlib")
 
 
